@@ -257,6 +257,7 @@ func c09Exec(r *vfRun) {
 	simA.quiesce()
 	tape := &vfTape{rec: append([]int(nil), simA.tape.out[mark:]...), replay: true}
 	simB := vfNewSim(tape, simA.maxSteps)
+	simB.pct = simA.pct
 	simB.traceOn = simA.traceOn
 	rw := c09Run(r, simB, false)
 	if simB.traceOn {
